@@ -63,6 +63,13 @@ static void one(const std::vector<bgen::Elem> &alph, const Stored &st, const std
     if(rtosc_bundle_timetag(g_buf) != tt) vp::violation("timetag|rtosc_bundle_timetag|" + shape, cid, "time tag not preserved");
     size_t ne = rtosc_bundle_elements(g_buf, len);
     if(ne != seq.size()) vp::violation("element-count|rtosc_bundle_elements|" + shape, cid, "reports " + std::to_string(ne) + " elements, bundle has " + std::to_string(seq.size()));
+    // "len: upper bound on the length of the bundle": any larger bound gives the same count (the destination was zero-filled
+    // behind the bundle, so the walk ends at the zero size word)
+    if(built_ok || true) for(size_t ub : {len + 1, len + 4, BUFSZ, (size_t)0x7fffffff, (size_t)1 << 40, (size_t)-1}) {
+        vp::transition();
+        size_t ne2 = rtosc_bundle_elements(g_buf, ub);
+        if(ne2 != seq.size()) { vp::violation("element-count|rtosc_bundle_elements|upper-bound," + shape, cid, "reports " + std::to_string(ne2) + " elements with upper bound " + std::to_string(ub) + ", bundle has " + std::to_string(seq.size())); break; }
+    }
     for(size_t extra : {size_t(0), size_t(16)}) {
         // trailing bytes beyond len are zero here (rtosc_bundle zero-fills the destination)
         size_t ml = rtosc_message_length(g_buf, len + extra);
@@ -114,6 +121,57 @@ int main(int argc, char **argv)
         for(int layout = 0; layout < 2; ++layout) {
             if(s.size() <= 2) for(int t = 0; t < bgen::N_TIMETAGS; ++t) one(alph, st, s, t, layout);
             else one(alph, st, s, (int)(si % bgen::N_TIMETAGS), layout);
+        }
+    }
+    // ---- large elements: a message with a blob of 65508..1 MiB bytes as only / first / last element, and the resulting bundle
+    // nested once more (composition measures a nested element through the length function with an unknown bound)
+    {
+        static const size_t BLOBS[] = {65508, 65512, 65516, 65536, 70000, 131072, 1048576};
+        const size_t NB = sizeof BLOBS / sizeof *BLOBS;
+        vp::bound("large_elements", "blob of 65508,65512,65516 (element of 65532,65536,65540 bytes),65536,70000,131072,1048576 bytes x position {only,first,last} x {flat, nested once more}");
+        for(size_t bi = 0; bi < NB; ++bi) for(int pos = 0; pos < 3; ++pos) for(int nest = 0; nest < 2; ++nest) {
+            if(!vp::mine(bi * 6 + pos * 2 + nest)) continue;
+            std::string cid = "big|" + std::to_string(BLOBS[bi]) + "|p" + std::to_string(pos) + "|n" + std::to_string(nest);
+            if(!vp::want(cid)) continue;
+            vp::current_case() = cid; vp::state(); vp::eval(); vp::nontrivial(vp::fnv(cid));
+            vp::outcome(std::string("large,") + (nest ? "nested" : "flat"));
+            ref::Arg b; b.type = 'b'; b.b.resize(BLOBS[bi]); for(size_t k = 0; k < BLOBS[bi]; ++k) b.b[k] = (unsigned char)(k * 7 + 1); b.b_len = (uint32_t)BLOBS[bi];
+            std::string big = ref::encode("/blob", "b", {b}), small = ref::encode("/a", "", {});
+            std::vector<std::string> eb = pos == 0 ? std::vector<std::string>{big} : pos == 1 ? std::vector<std::string>{big, small} : std::vector<std::string>{small, big};
+            std::string inner = ref::bundle(7, eb);
+            std::string shape = std::string("large-element,") + (nest ? "nested" : "flat");
+            std::vector<std::string> top = eb; uint64_t tt = 7;
+            if(nest) { top = {inner, small}; tt = 9; }
+            std::string expect = ref::bundle(tt, top);
+            std::vector<std::string> mem; for(auto &e : top) { mem.push_back(e); mem.back().append(16, '\0'); }
+            std::vector<const char *> ptrs; for(auto &m : mem) ptrs.push_back(m.data());
+            std::vector<char> dst(expect.size() + 64, (char)0xA5);
+            size_t r = 0;
+            int sig = guard::guarded([&] { r = varcall::call_bundle(dst.data(), expect.size() + 32, tt, ptrs); });
+            vp::transition();
+            if(sig) { vp::violation("crash|rtosc_bundle|" + shape, cid, "signal " + std::to_string(sig)); continue; }
+            if(r != expect.size()) vp::violation("bundle-length|rtosc_bundle|" + shape, cid, "returned " + std::to_string(r) + ", expected " + std::to_string(expect.size()));
+            else if(memcmp(dst.data(), expect.data(), r)) vp::violation("bundle-bytes|rtosc_bundle|" + shape, cid, "bytes differ from the reference encoding");
+            // decomposition from the reference bytes
+            std::vector<char> rb(expect.begin(), expect.end()); rb.resize(expect.size() + 64, 0);
+            vp::transition(5);
+            size_t ne = rtosc_bundle_elements(rb.data(), expect.size());
+            if(ne != top.size()) vp::violation("element-count|rtosc_bundle_elements|" + shape, cid, "reports " + std::to_string(ne) + " elements, bundle has " + std::to_string(top.size()));
+            if(rtosc_bundle_elements(rb.data(), (size_t)-1) != top.size()) vp::violation("element-count|rtosc_bundle_elements|upper-bound," + shape, cid, "wrong count with upper bound SIZE_MAX");
+            for(size_t extra : {size_t(0), size_t(16)}) {
+                size_t ml = rtosc_message_length(rb.data(), expect.size() + extra);
+                if(ml != expect.size()) vp::violation(std::string("message-length|bundle|") + (extra ? "slack|" : "exact|") + shape, cid, "rtosc_message_length=" + std::to_string(ml) + " for a bundle of " + std::to_string(expect.size()) + " bytes");
+            }
+            size_t off = 16;
+            for(size_t i = 0; i < top.size(); ++i) {
+                vp::transition(2);
+                const char *q = rtosc_bundle_fetch(rb.data(), (unsigned)i); size_t sz = rtosc_bundle_size(rb.data(), (unsigned)i);
+                if(q != rb.data() + off + 4) vp::violation("fetch-offset|rtosc_bundle_fetch|" + shape, cid, "element " + std::to_string(i) + " at the wrong offset");
+                else if(sz != top[i].size()) vp::violation("element-size|rtosc_bundle_size|" + shape, cid, "element " + std::to_string(i) + " size " + std::to_string(sz) + ", expected " + std::to_string(top[i].size()));
+                else if(memcmp(q, top[i].data(), sz)) vp::violation("element-bytes|rtosc_bundle_fetch|" + shape, cid, "element " + std::to_string(i) + " not byte-identical");
+                off += 4 + top[i].size();
+            }
+            vp::trace();
         }
     }
     // a plain message is never mistaken for a bundle: every message of a C01-style family
